@@ -174,6 +174,18 @@ def run_plan(plan: dict) -> dict:
                     finally:
                         gm.uninstall()
                     bump("designs_compared")
+                    # writing the input file again *after* the search (which overwrote the shared borehole height and
+                    # built search objects) must still produce the same file
+                    f3 = rootp / "f3.json"
+                    try:
+                        mgr1.write_input_file(f3)
+                        t3 = f3.read_text()
+                    except Exception as e:  # noqa: BLE001
+                        t3 = f"raises {type(e).__name__}: {e}"
+                    log.add("save_after_find", None, digest(t3))
+                    if t3 != t1:
+                        viol("file_written_after_search_differs", "write_input_file after find_design differs from the file "
+                                                                  "written before it", site=variant)
                     log.add("designs", None, [(o1.get("ok") or {}).get("nbh", o1.get("exc")), (o2.get("ok") or {}).get("nbh", o2.get("exc"))])
                     if ("ok" in o1) != ("ok" in o2) or o1.get("exc") != o2.get("exc"):
                         viol("reloaded_design_outcome_differs", f"{o1.get('exc', 'design')} vs {o2.get('exc', 'design')}", site=variant)
